@@ -507,7 +507,7 @@ impl GroupcastHandler {
         let mut persist = FabricPersist::new(ctx.kv());
 
         ctx.exchange().with_state(|state| {
-            if !state.failsafe.is_armed_for(fab_idx.get()) {
+            if !state.failsafe.defers_store_for(fab_idx.get()) {
                 let fabric = state.fabrics.fabric(fab_idx)?;
                 persist.store(fabric)?;
             }
